@@ -289,6 +289,7 @@ def obligations(repo, prop="C07"):
 
     def mk(name, ok, line=0, text=""):
         ob = Obligation(name, "frame", z3.BoolVal(bool(ok)), [], line, text)
+        ob.inconclusive = True        # a MAY-analysis: "may mutate / may read state" is not a refutation
         ob.defs = []
         obs.append(ob)
     entries = list(ENTRY_POINTS_C07)
